@@ -504,7 +504,7 @@ def check(ck):
     # (v') tables derived from a table DEFINED EARLIER in the script (CLONE / LIKE / (LIKE ..)), alone and followed by an ALTER
     src, _, _ = make_table("t0", qual=("s1", None))
     for text, ident in OTHERS[10:]:
-        for tail in ("", "\nALTER TABLE %s.%s ADD COLUMN restored_at timestamp;" % (ident[1], ident[2])):
+        for tail in ("", "\nALTER TABLE %s.%s ADD restored_at timestamp;" % (ident[1], ident[2])):
             run_case(ck, "derived-after-source-x-mode", (text, bool(tail)), src + "\n" + text + tail, all_modes, some_combos(2), tags=("other", "derived-after-source"))
     # (vi) random scripts
     n_rand = 70 if quick else 600
